@@ -27,6 +27,9 @@ class FakeLine:
 
 
 class FakeText:
+    """A source text of len(lens) lines whose lengths are symbolic: every way of finding its line breaks that
+    str offers (split, splitlines, find, index, count) is answered with terms over the line lengths."""
+
     def __init__(self, lens):
         self.lens = lens
 
@@ -34,12 +37,47 @@ class FakeText:
         assert sep == "\n"
         return [FakeLine(n) for n in self.lens]
 
+    def splitlines(self, keepends=False):
+        return [FakeLine(n + (1 if keepends else 0)) for n in self.lens]
+
+    def _breaks(self):
+        out, pos = [], 0
+        for n in self.lens[:-1]:
+            pos = pos + n
+            out.append(pos)          # offset of the k-th line break
+            pos = pos + 1
+        return out
+
+    def find(self, sub, start=0, end=None):
+        assert sub == "\n" and end is None
+        for b in self._breaks():
+            if b >= start:           # forks on symbolic positions
+                return b
+        return -1
+
+    def index(self, sub, start=0, end=None):
+        r = self.find(sub, start, end)
+        if isinstance(r, int) and r == -1:
+            raise ValueError("substring not found")
+        return r
+
+    def count(self, sub, *a):
+        assert sub == "\n" and not a
+        return len(self.lens) - 1
+
+    @property
+    def n(self):                     # len(text) through the len shim
+        total = len(self.lens) - 1
+        for x in self.lens:
+            total = total + x
+        return total
+
 
 def _install_len():
     import nsl.ast as A
 
     def shim_len(x):
-        return x.n if isinstance(x, FakeLine) else len(x)
+        return x.n if isinstance(x, (FakeLine, FakeText)) else len(x)
     A.len = shim_len
 
 
@@ -354,8 +392,12 @@ def _layout_programs():
                 second = lay2.format(T="float", N=name)
                 # the second declaration sits in a nested block: a redeclaration the name validation reports
                 src = "export function f(int p) -> int {\n" + first + "\n  p = p + 1; {\n" + second + "\n } return p; }"
-                progs.append((src, name, "local/nested-local", True))
+                lead = ["", "\n", "\n\n\t", " \n"][(li + lj + ni) % 4]       # the text may start with a line break
+                progs.append((lead + src, name, "local/nested-local", True))
     for name in names:
+        # suffixed and exponent float literals, hex/octal ints, calls and constructors as the last token of an initialiser
+        for lit in ("0.5f", "2.0", "3e2", "0x1F", "017", "42", "q + 1.5f", "q * 0x10"):
+            progs.append((f"\nexport function f(int q) -> int {{\n  float {name} = {lit};\n  {{ float {name}\t=\n {lit}; }} return 1; }}", name, "initialised-literal", True))
         progs.append((f"export function f(int   {name}) -> int {{\n\n\t\tint {name}; return 1; }}", name, "param/local", True))
         progs.append((f"int {name};\n\n\nexport function f(int q) -> int {{ int\n{name}; return 1; }}", name, "global/local", True))
         progs.append((f"export function f(int q) -> int {{ for (int {name} = 0; {name} < q; ++{name}) {{\n  int  {name}; }} return 1; }}", name, "for/local", True))
@@ -432,7 +474,49 @@ def _designates(src, rng, name):
     return rest.startswith("=") and not rest.startswith("=="), text
 
 
+def _tree_problems(src):
+    """whole-tree gate: every leaf that carries a position designates exactly its own spelling, and every parent's range
+    covers the ranges of all its children (after UpdateLocations)"""
+    from nsl import parser, ast
+    from nsl.passes import UpdateLocations
+    with contextlib.redirect_stdout(io.StringIO()), contextlib.redirect_stderr(io.StringIO()):
+        tree = parser.NslParser().Parse(src)
+        UpdateLocations.GetPass().Process(tree, output=io.StringIO())
+    probs = []
+
+    def span(n):
+        loc = n.GetLocation() if hasattr(n, "GetLocation") else None
+        if loc is None or loc.IsUnknown:
+            return None
+        return loc.GetBegin(), loc.GetEnd()
+
+    def walk(n, ctx=None):
+        sp = span(n)
+        kids = []
+        n.ForEachChild(lambda c, ctx=None: kids.append(c))
+        if sp is not None:
+            text = src[sp[0]:sp[1]]
+            if isinstance(n, ast.PrimaryExpression) and text != n.GetName():
+                probs.append(f"identifier {n.GetName()!r} reported at [{sp[0]},{sp[1]}) = {text!r}")
+            if isinstance(n, ast.LiteralExpression):
+                spelled = re.fullmatch(r"[-+]?(0[xX][0-9a-fA-F]+|[0-9.]+([eE][-+]?[0-9]+)?[fFlL]?)", text)
+                ok = bool(spelled) and (sp[1] == len(src) or not (src[sp[1]].isalnum() or src[sp[1]] in "._"))
+                if not ok:
+                    probs.append(f"literal {n.GetValue()!r} reported at [{sp[0]},{sp[1]}) = {text!r} (followed by {src[sp[1]:sp[1] + 1]!r})")
+            for c in kids:
+                cs = span(c)
+                if cs is not None and not (sp[0] <= cs[0] and cs[1] <= sp[1]):
+                    probs.append(f"{type(n).__name__} [{sp[0]},{sp[1]}) does not cover its part {type(c).__name__} [{cs[0]},{cs[1]})")
+        for c in kids:
+            walk(c)
+    walk(tree)
+    return probs
+
+
 def _check_layout(src, name, expect_diag=True):
+    tp = _tree_problems(src)
+    if tp:
+        return dict(source=src, name=name, tree=tp[:3])
     # (a) positions of the parsed nodes
     for kind, rng in _node_positions(src, name):
         ok, text = _designates(src, rng, name)
